@@ -363,7 +363,7 @@ def run(model, rep):
     rep.floor('C13.FWD', 17)
 
     # ---- ANN
-    run_ann(model, rep, A, ann_calls, ann_defaults, argname, flag_of_dest)
+    # (the arms of the annotation options and the list splitting are decided semantically by C13.EVAL below)
 
     # ---- SPLIT
     for p in ('preserve_globals', 'preserve_locals'):
@@ -374,41 +374,10 @@ def run(model, rep):
         s = ss[0]
         rep.check(s.action == 'append', 'C13.SPLIT', pa.loc(s.call), '%s action=%s' % (s.long, s.action), 'repeatable',
                   'repeated %s would overwrite instead of accumulate' % s.long, key='C13.SPLIT|%s|action' % p)
-        kwv = [k.value for k in mcall.keywords if k.arg == p]
-        var = kwv[0].id if kwv and isinstance(kwv[0], ast.Name) else None
-        loops = [n for n in walk_own(dm.node) if isinstance(n, ast.For) and src(n.iter) == '%s.%s' % (argname, s.dest)]
-        good = False
-        why = 'no loop over every entry of %s.%s' % (argname, s.dest)
-        for lp in loops:
-            lv = lp.target.id if isinstance(lp.target, ast.Name) else None
-            splits = [c for c in ast.walk(lp) if isinstance(c, ast.Call) and isinstance(c.func, ast.Attribute) and c.func.attr == 'split'
-                      and isinstance(c.func.value, ast.Name) and c.func.value.id == lv]
-            if not splits:
-                why = 'entries are not split'
-                continue
-            seps = [literal(c.args[0]) if c.args and isinstance(c.args[0], ast.Constant) else None for c in splits]
-            if any(sp != ',' for sp in seps):
-                why = 'entries are split on %r, documented separator is a comma' % (seps,)
-                continue
-            strips = [c for c in ast.walk(lp) if isinstance(c, ast.Call) and isinstance(c.func, ast.Attribute) and c.func.attr == 'strip' and not c.args]
-            if not strips:
-                why = 'names are not stripped'
-                continue
-            feeds = [c for c in ast.walk(lp) if isinstance(c, ast.Call) and isinstance(c.func, ast.Attribute) and c.func.attr in ('extend', 'append')
-                     and isinstance(c.func.value, ast.Name) and c.func.value.id == var]
-            feeds += [c for c in ast.walk(lp) if isinstance(c, ast.AugAssign) and isinstance(c.target, ast.Name) and c.target.id == var]
-            if not feeds:
-                why = 'split names never reach the list passed as %s' % p
-                continue
-            # no early exit from the loop
-            if any(isinstance(x, (ast.Break, ast.Return)) for x in ast.walk(lp)):
-                why = 'loop over entries can exit early'
-                continue
-            good = True
-        rep.check(good, 'C13.SPLIT', dm.loc(loops[0]) if loops else dm.loc(), 'for ... in %s.%s' % (argname, s.dest),
-                  'every entry iterated, split on comma, stripped, accumulated into ' + str(var), why, key='C13.SPLIT|%s|loop' % p)
-    rep.floor('C13.SPLIT', 4)
+    rep.floor('C13.SPLIT', 2)
 
+    rep.rule('C13.EVAL', 'do_minify abstractly evaluated on namespaces: one option flipped, all annotation vectors, list spellings -> keywords of minify()')
+    run_eval(model, rep, A, opt_specs, ann_defaults, api_params)
     run_val(model, rep, A, specs, mutex)
     run_out(model, rep, A)
     run_doc(model, rep, A, specs)
@@ -608,3 +577,112 @@ def run_doc(model, rep, A, specs):
                 n += 1
                 rep.check(fl in flags, 'C13.DOC', '%s:%d' % (rel, i), fl, 'flag exists', 'documented flag %s does not exist in the parser' % fl, key='C13.DOC|%s|%s' % (os.path.basename(rel), fl))
     rep.floor('C13.DOC', 15)
+
+
+# ---------------------------------------------------------------------- EVAL: do_minify abstractly evaluated on argparse namespaces
+def run_eval(model, rep, A, opt_specs, ann_defaults, api_params):
+    """For namespaces that differ from the defaults in one option (and for all annotation sub-option vectors, and for several
+    spellings of the preserve lists) the keyword arguments handed to minify() must be the documented meaning of the flags."""
+    dm = A.do_minify
+    by_name = {normalised(s.long, s.action)[0]: s for s in opt_specs}
+    parser_defaults = {}
+    specs, mutex = extract_specs(A)
+    base = vars(build_parser(specs, mutex).parse_args(['x.py']))
+
+    def evaluate(ns_values):
+        captured = {}
+
+        def minify_hook(I, e, args, kw, env):
+            captured['args'] = args
+            captured['kw'] = kw
+            return 'minified text'
+        hooks = {'minify': minify_hook, 'os.environ.get': lambda I, e, args, kw, env: '1'}
+        I = Interp(model, MAIN, hooks)
+        ns = Obj('Namespace', closed=True, **ns_values)
+        res = I.explore(lambda: I.call_function(dm.qual, [b'source bytes', 'file.py', ns]))
+        outs = {r[0][0] for r in res}
+        if outs == {'raise'}:
+            return {'raise': res[0][0][1]}
+        if outs != {'return'} or 'kw' not in captured:
+            raise AnalysisError('UNDECIDED: do_minify on a namespace -> %s %s' % ([r[0] for r in res][:2], res[0][2][:3]))
+        return captured
+
+    def expected(ns_values):
+        want = {}
+        for p in api_params:
+            if p == 'remove_annotations':
+                continue
+            s = by_name.get(p)
+            if s is None:
+                continue
+            v = ns_values[s.dest]
+            if s.action == 'append':
+                names = []
+                for entry in (v or []):
+                    names += [n.strip() for n in entry.split(',') if n.strip()]
+                v = names
+            want[p] = v
+        ann = {}
+        for k in ann_defaults:
+            s = by_name.get(k)
+            ann[k] = bool(ns_values[by_name['remove_annotations'].dest]) and bool(ns_values[s.dest]) if s is not None else None
+        return want, ann
+
+    def compare(label, ns_values):
+        cap = evaluate(ns_values)
+        if 'raise' in cap:
+            rep.violation('C13.EVAL', dm.loc(), label, 'do_minify raises %s on the namespace the argument parser produces for these flags' % cap['raise'], key='C13.EVAL|' + label)
+            return
+        want, ann = expected(ns_values)
+        kw = cap['kw']
+        problems = []
+        for p, v in want.items():
+            got = kw.get(p, '<missing>')
+            if isinstance(v, list):
+                if got is None and v == []:
+                    continue
+                if not isinstance(got, list) or [x for x in got if x] != v:
+                    problems.append('%s=%r (documented meaning: %r)' % (p, got, v))
+            elif got is not v:
+                problems.append('%s=%r (documented meaning: %r)' % (p, got, v))
+        ra = kw.get('remove_annotations')
+        if isinstance(ra, Obj):
+            for k, v in ann.items():
+                got = ra.attrs.get(k)
+                if bool(got) is not v or got is TOP:
+                    problems.append('remove_annotations.%s=%r (documented meaning: %r)' % (k, got, v))
+        elif isinstance(ra, bool):
+            for k, v in ann.items():
+                if ra is not v:
+                    problems.append('remove_annotations=%r but %s should be %r' % (ra, k, v))
+        else:
+            problems.append('remove_annotations=%r' % (ra,))
+        rep.check(not problems, 'C13.EVAL', dm.loc(), label, 'minify() receives the documented meaning of the flags', '; '.join(problems[:3]), key='C13.EVAL|' + label)
+
+    n = 0
+    compare('no flags', dict(base))
+    for s in opt_specs:
+        if s.action == 'append':
+            continue
+        v = dict(base)
+        v[s.dest] = not base[s.dest]
+        if normalised(s.long, s.action)[0] == 'remove_class_attribute_annotations':
+            pass
+        compare(s.long, v)
+    subs = [by_name[k] for k in sorted(ann_defaults) if k in by_name]
+    for master in (True, False):
+        for bits in itertools.product((True, False), repeat=len(subs)):
+            v = dict(base)
+            v[by_name['remove_annotations'].dest] = master
+            for s, b in zip(subs, bits):
+                v[s.dest] = b
+            compare('annotations: master=%s %s' % (master, ','.join('%s=%s' % (s.dest.replace('remove_', '').replace('_annotations', ''), b) for s, b in zip(subs, bits))), v)
+    for p in ('preserve_globals', 'preserve_locals'):
+        s = by_name.get(p)
+        if s is None:
+            continue
+        for spelling in (None, ['a'], ['a,b'], ['a, b', 'c'], ['a,,b'], [' a ,b ', 'c,d'], ['a', 'b', 'c']):
+            v = dict(base)
+            v[s.dest] = spelling
+            compare('%s %r' % (s.long, spelling), v)
+    rep.floor('C13.EVAL', 60)
